@@ -426,8 +426,10 @@ def _dec_text(x: Decimal) -> str:
     return s
 
 
-def fill_table(system, numstyle, given, case_letter, order, nv, lattice, layout):
+def fill_table(system, numstyle, given, case_letter, order, nv, lattice, layout, vref="586.01996000",
+               cellmass="200.782", variant=0):
     """(text, info): a table that is sufficient for `system` and consistent with it.
+    `variant` k shifts every number (components, volumes, lattice parameters) so that two tables differ in every slot.
     info: volumes (Decimal), full: per volume {pair: Decimal} of all 21 components as they must come
     out, given pairs, raw lattice rows."""
     S = R.SYSTEMS[system]
@@ -438,7 +440,8 @@ def fill_table(system, numstyle, given, case_letter, order, nv, lattice, layout)
         row = {}
         for p in indep:
             ip = R.VOIGT_PAIRS.index(p)
-            x = Decimal("40.0") + Decimal("23.17") * (20 - ip) + Decimal("2.31291") * iv + Decimal("0.137") * ((ip * 7) % 5)
+            x = Decimal("40.0") + Decimal("23.17") * (20 - ip) + Decimal("2.31291") * iv + Decimal("0.137") * ((ip * 7) % 5) + \
+                Decimal("0.71") * variant
             if p in ((1, 4), (2, 5), (3, 6), (4, 6), (1, 6)):
                 x = -x
             if numstyle == "int":
@@ -467,7 +470,7 @@ def fill_table(system, numstyle, given, case_letter, order, nv, lattice, layout)
     cols = order_pairs(cols, order)
     vols = []
     for iv in range(nv):
-        v = Decimal("617.47767") - Decimal("31.45771") * iv
+        v = Decimal("617.47767") - Decimal("31.45771") * iv + Decimal("11.10301") * variant
         if numstyle in ("int", "intV"):
             v = v.quantize(Decimal("1"))
         elif numstyle == "longdec":
@@ -484,11 +487,11 @@ def fill_table(system, numstyle, given, case_letter, order, nv, lattice, layout)
     rows = [[vtext(vols[iv])] + [_dec_text(full[iv][p]) for p in cols] for iv in range(nv)]
     lat = None
     if lattice:
-        lat = [["%.15f" % (1.014113439015351 - 0.0161 * iv), "%.15f" % (0.878861666717805 - 0.0152 * iv),
-                "%.15f" % (2.910090805459099 - 0.0503 * iv)] for iv in range(nv)]
+        lat = [["%.15f" % (1.014113439015351 - 0.0161 * iv + 0.0007 * variant), "%.15f" % (0.878861666717805 - 0.0152 * iv + 0.0007 * variant),
+                "%.15f" % (2.910090805459099 - 0.0503 * iv + 0.0007 * variant)] for iv in range(nv)]
     names = ["V"] + [R.name_2digit(p, case_letter) for p in cols]
     title = f"V_0 N cellmass {system} (24.305+16.0*3+28.086)*2"
-    text = R.write_static(title, "586.01996000", nv, "200.782", names, rows, lat, layout)
+    text = R.write_static(title, vref, nv, cellmass, names, rows, lat, layout)
     vals = [full[iv][p] for iv in range(nv) for p in indep]
     if len(set(vals)) != len(vals) or any(v == 0 for v in vals):
         raise HarnessError(f"fill table generator: repeated or zero independent value for {system}")
@@ -807,6 +810,271 @@ def _shipped_case(case):
     return {"viol": viol, "outcome": "shipped/static+fill", "key": "sh" + case["path"]}
 
 
+# =========================================================================== histories (mode B)
+#
+# A reader is a function of the bytes at the path at the time of the call.  Here the *process history*
+# is enumerated: every valid sequence of operations over one scratch path p (and a second path q) up to
+# a depth, each replayed from scratch on fresh real files; after every read the result must equal
+# io_ref's parse of the bytes that are at that path at that moment -- whatever was written, read,
+# symmetry-filled in memory or edited in the returned objects before.
+
+HIST_STATIC_OPS = ["wX", "wY", "rp", "rq", "fill", "medit", "mpop"]
+HIST_PHONON_OPS = ["wA", "wB", "rp", "rq", "medit", "mpop"]
+PATHMODES = ["unique", "fixed", "relative"]
+# unique:   p, q are absolute paths in a directory created for the case
+# fixed:    p, q are absolute paths with a name that is the same for every case a worker process executes
+#           (/dev/shm/c17h-fixed-<pid>/...), and the case starts with a "previous tenant": another table is
+#           written to p and q, read, and the files are removed -- then the history proper starts
+# relative: p and q have the SAME relative name in two directories; every operation runs with the
+#           working directory set accordingly and passes the relative name
+
+HIST_TABLES = {   # name -> fill_table arguments; all differ in title, vref, nv, cellmass, components, every number
+    "X": dict(system="cubic", numstyle="float", given="independent", case_letter="c", order="voigt", nv=2, lattice=0,
+              layout="plain", vref="586.01996000", cellmass="200.782", variant=0),
+    "Y": dict(system="hexagonal", numstyle="float", given="independent", case_letter="C", order="reversed", nv=3, lattice=1,
+              layout="padded", vref="1454.2561", cellmass="433.1008", variant=1),
+    "Z": dict(system="tetragonal6", numstyle="float", given="independent", case_letter="c", order="voigt", nv=1, lattice=1,
+              layout="crlf-tabs", vref="2260.92", cellmass="803.104", variant=2),       # lives at q
+    "W": dict(system="orthorhombic", numstyle="float", given="independent", case_letter="c", order="voigt", nv=4, lattice=1,
+              layout="plain", vref="1918.4798", cellmass="562.768", variant=3),          # the previous tenant
+}
+HIST_PHONON = {   # name -> (shape, family, (nm, na))
+    "A": ((2, 2, 3), "unit", (2, 10)),
+    "B": ((1, 3, 6), "large", (4, 20)),
+    "C": ((2, 1, 3), "physical", (1, 1)),       # lives at q
+    "W": ((3, 2, 3), "unit", (12, 240)),        # the previous tenant
+}
+
+
+def history_sequences(ops, depth):
+    """All valid operation sequences of length <= depth that end in a read.  Valid: `rp` needs an earlier
+    write to p (q holds its table from the start); fill / medit / mpop need an earlier read (they act on
+    the object the last read returned); fill needs that object not to have been edited by medit / mpop
+    (an edited object is no longer a consistent table, a refusal there would say nothing)."""
+    out = []
+
+    def rec(seq, written, have, tainted):
+        if seq and seq[-1] in ("rp", "rq"):
+            out.append(list(seq))
+        if len(seq) >= depth:
+            return
+        for op in ops:
+            if op[0] == "w":
+                rec(seq + [op], True, have, tainted)
+            elif op == "rp":
+                if written:
+                    rec(seq + [op], written, True, False)
+            elif op == "rq":
+                rec(seq + [op], written, True, False)
+            elif op == "fill":
+                if have and not tainted:
+                    rec(seq + [op], written, have, tainted)
+            else:
+                if have:
+                    rec(seq + [op], written, have, True)
+
+    rec([], False, False, False)
+    return out
+
+
+def _qha_plain(rd):
+    return {"nv": rd.nv, "nq": rd.nq, "np": rd.np, "nm": rd.nm, "na": rd.na,
+            "volumes": [{"P": v.pressure, "V": v.volume, "E": v.energy,
+                         "q": [{"coord": list(q.coord), "modes": list(q.modes)} for q in v.q_points]} for v in rd.volumes],
+            "weights": [{"coord": list(w.coord), "w": w.weight} for w in rd.weights]}
+
+
+def _qha_data(name):
+    from cij.io.traditional.models import QHAInputData, VolumeData, QPointData, QPointWeight
+    shape, fam, (nm, na) = HIST_PHONON[name]
+    ref = phonon_values(shape, fam)
+    return QHAInputData(shape[0], shape[1], shape[2], nm, na,
+                        [QPointWeight(tuple(w["coord"]), w["w"]) for w in ref["weights"]],
+                        [VolumeData(v["P"], v["V"], v["E"], [QPointData(tuple(q["coord"]), list(q["modes"])) for q in v["q"]])
+                         for v in ref["volumes"]])
+
+
+class _In:
+    """Run an operation with the working directory set (relative path mode)."""
+
+    def __init__(self, d):
+        self.d, self.old = d, None
+
+    def __enter__(self):
+        if self.d:
+            self.old = os.getcwd()
+            os.chdir(self.d)
+
+    def __exit__(self, *a):
+        if self.old:
+            os.chdir(self.old)
+
+
+def _history_case(case):
+    from cij.io.traditional.elast_dat import read_elast_data, apply_symetry_on_elast_data
+    from cij.io.traditional.qha_input import read_energy, write_energy
+    what, ops, mode = case["what"], case["ops"], case["pathmode"]
+    static = what == "static"
+    viol = []
+    base = None
+    try:
+        # ---- places: where -> (cwd or None, name handed to cij, absolute path)
+        if mode == "fixed":
+            base = f"/dev/shm/c17h-fixed-{os.getpid()}"
+            shutil.rmtree(base, ignore_errors=True)
+            os.makedirs(base)
+            place = {"p": (None, os.path.join(base, "table.dat"), os.path.join(base, "table.dat")),
+                     "q": (None, os.path.join(base, "other.dat"), os.path.join(base, "other.dat"))}
+        else:
+            base = tempfile.mkdtemp(dir="/dev/shm", prefix="c17h-")
+            if mode == "unique":
+                place = {"p": (None, os.path.join(base, "table.dat"), os.path.join(base, "table.dat")),
+                         "q": (None, os.path.join(base, "other.dat"), os.path.join(base, "other.dat"))}
+            else:
+                for sub in ("a", "b"):
+                    os.makedirs(os.path.join(base, sub))
+                place = {"p": (os.path.join(base, "a"), "table.dat", os.path.join(base, "a", "table.dat")),
+                         "q": (os.path.join(base, "b"), "table.dat", os.path.join(base, "b", "table.dat"))}
+        content = {}        # where -> name of what was written there last
+        earlier = {"p": [], "q": []}   # plain parses of everything that was at that place before
+
+        def write(where, name):
+            cwd, arg, path = place[where]
+            if static:
+                text, _ = fill_table(**HIST_TABLES[name])
+                with open(path, "w", encoding="utf8", newline="") as fp:
+                    fp.write(text)
+            else:
+                try:
+                    with _In(cwd):
+                        write_energy(arg, _qha_data(name))
+                except Exception as e:
+                    viol.append(V(f"c17:history:phonon:write-raises:{type(e).__name__}", f"write_energy raised {e!r} after {done}"))
+                    return False
+            content[where] = name
+            return True
+
+        def expected(where):
+            with open(place[where][2], encoding="utf8", newline="") as fp:
+                text = fp.read()
+            if static:
+                rp = R.parse_static(text)
+                return {k: rp[k] for k in ("vref", "nv", "cellmass", "volumes", "rows", "lattice")}
+            rp = R.parse_phonon(text)
+            return {k: rp[k] for k in ("nv", "nq", "np", "nm", "na", "volumes", "weights")}
+
+        def read(where, label):
+            """One read + the oracle.  Returns the object (or None)."""
+            cwd, arg, path = place[where]
+            exp = expected(where)
+            try:
+                with _In(cwd):
+                    obj = read_elast_data(arg) if static else read_energy(arg)
+                got = _elast_plain(obj)[0] if static else _qha_plain(obj)
+            except Exception as e:
+                viol.append(V(f"c17:history:{what}:read-raises:{type(e).__name__}", f"read raised {e!r} at step {label} of {ops} ({mode})"))
+                return None
+            if got != exp:
+                if static:
+                    tmp = []
+                    _cmp_static(got, exp, "x", tmp, "read")
+                    fields = [v["sig"].split(":")[-1] for v in tmp] or ["?"]
+                else:
+                    fields = [k for k in exp if got[k] != exp[k]]
+                if any(got == e for e in earlier[where]):
+                    cause = "stale:equals-earlier-content-of-the-path"
+                elif any(got == e for w in earlier for e in earlier[w]) or any(
+                        w != where and w in content and os.path.exists(place[w][2]) and got == expected(w) for w in place):
+                    cause = "equals-content-of-another-path"
+                elif any(o in ("fill", "medit", "mpop") for o in done):
+                    cause = "carries-in-memory-changes-of-an-earlier-result"
+                else:
+                    cause = "other"
+                viol.append(V(f"c17:history:{what}:read-differs-from-file:{cause}",
+                              f"history {ops} on path mode `{mode}`: the read at step {label} ({where} holds {content.get(where)}) differs from "
+                              f"the independent parse of the bytes at the path in {fields}; e.g. "
+                              f"{fields[0]}: read {str(got.get(fields[0]))[:160]} file has {str(exp.get(fields[0]))[:160]}"))
+            earlier[where].append(exp)
+            return obj
+
+        done = []
+        # ---- previous tenant of the fixed names
+        if mode == "fixed":
+            for where in ("p", "q"):
+                if write(where, "W"):
+                    done.append(f"tenant:w{where}")
+                    read(where, f"tenant-read-{where}")
+                    done.append(f"tenant:r{where}")
+                os.remove(place[where][2])
+            content.clear()
+        # ---- q holds its own data from the start
+        write("q", "Z" if static else "C")
+        obj, obj_from = None, None
+        nreads = 0
+        for i, op in enumerate(ops):
+            label = f"{i}:{op}"
+            if op[0] == "w":
+                write("p", op[1])
+            elif op in ("rp", "rq"):
+                where = op[1]
+                obj = read(where, label)
+                obj_from = content.get(where)
+                nreads += 1
+            elif obj is None:
+                pass        # the read before failed (already reported)
+            elif op == "fill":
+                system = HIST_TABLES[obj_from]["system"]
+                try:
+                    apply_symetry_on_elast_data(obj, {"system": system})
+                except Exception as e:
+                    viol.append(V(f"c17:history:static:fill-raises:{type(e).__name__}",
+                                  f"apply_symetry_on_elast_data(result of reading table {obj_from}, {system}) raised {e!r} at step {label} of {ops}"))
+            elif op == "medit":
+                try:
+                    if static:
+                        if obj.volumes:
+                            d0 = obj.volumes[0].static_elastic_modulus
+                            d0[next(iter(d0))] = 12345.678
+                            obj.volumes.append(obj.volumes[0])
+                        obj.lattice_parmeters.append((9.25, 9.5, 9.75))
+                    else:
+                        if obj.volumes and obj.volumes[0].q_points:
+                            obj.volumes[0].q_points[0].modes[0] = 777.125
+                            obj.volumes[0].q_points.append(obj.volumes[0].q_points[0])
+                        obj.weights.append(obj.weights[0] if obj.weights else ((0.0, 0.0, 0.0), 1.0))
+                except Exception as e:      # an immutable result cannot leak edits: fine
+                    done.append(f"(medit not possible: {type(e).__name__})")
+            elif op == "mpop":
+                try:
+                    if obj.volumes:
+                        obj.volumes.pop()
+                    if static and obj.lattice_parmeters:
+                        obj.lattice_parmeters.pop(0)
+                    if not static and obj.weights:
+                        obj.weights.pop(0)
+                except Exception as e:
+                    done.append(f"(mpop not possible: {type(e).__name__})")
+            done.append(op)
+    finally:
+        if base:
+            shutil.rmtree(base, ignore_errors=True)
+    return {"viol": viol, "outcome": f"history/{what}/{mode}/reads{nreads}" if not viol else "violation",
+            "key": f"h/{what}/{mode}/" + ",".join(ops)}
+
+
+HIST_DEPTH = {"quick": 4, "thorough": 5}
+
+
+def history_cases(quick):
+    depth = HIST_DEPTH["quick" if quick else "thorough"]
+    out = []
+    for what, ops in (("static", HIST_STATIC_OPS), ("phonon", HIST_PHONON_OPS)):
+        for seq in history_sequences(ops, depth):
+            for mode in PATHMODES:
+                out.append({"kind": "history", "what": what, "ops": seq, "pathmode": mode})
+    return out
+
+
 # =========================================================================== engine interface
 
 def run_case(case):
@@ -819,6 +1087,8 @@ def run_case(case):
         return _fill_case(case)
     if kind == "shipped":
         return _shipped_case(case)
+    if kind == "history":
+        return _history_case(case)
     raise HarnessError(f"unknown case kind {kind}")
 
 
@@ -874,7 +1144,12 @@ def explore(ctx):
         "length 2 (second `fill` over the enabled systems: same, triclinic, sufficient sub-symmetries; in quick the full "
         "second alphabet only at the default presentation, `same` elsewhere). phonon and static products are complete in "
         "both tiers. shipped example files: cij reader against the independent parser, and the command on each shipped "
-        "table. Every case is non-trivial (the smallest data set has 13 distinct numeric slots) except a shipped file "
+        "table. mode B (process histories): every valid operation sequence up to depth 4 (quick) / 5 (thorough) that ends "
+        "in a read, over one path p and a second path q -- static: {write table X to p, write table Y to p, read p, read q, "
+        "symmetry-fill the last result in memory, edit / pop the lists of the last result}; phonon: {write_energy A to p, "
+        "write_energy B to p, read p, read q, edit, pop} -- x 3 path modes (fresh absolute paths; one fixed absolute name per "
+        "worker process with a previous tenant written, read and removed first; equal relative names in two working "
+        "directories); after every read: result == io_ref parse of the bytes at the path at that moment. Every case is non-trivial (the smallest data set has 13 distinct numeric slots) except a shipped file "
         "that is absent or empty in the tree.")
     ctx.assumptions = [
         "CPython float()/'%f' are correctly rounded (trusted base)",
@@ -888,6 +1163,8 @@ def explore(ctx):
         "fill: numbers with <= 6 decimals must be carried exactly (1e-9 relative slack for the least-squares solve); "
         "9-decimal inputs are compared at half a unit of the last *printed* digit and counted in notes "
         "(STRICT_LONG_DECIMALS=False)",
+        "histories: fill is enabled only on a result that was not edited (an edited object is not a consistent table); "
+        "worker processes are long-lived, so a leak from one case into a later one also shows (fixed-name mode)",
         "header lines and lattice block are compared verbatim after removing line terminators (CRLF input is re-emitted "
         "with LF by text-mode I/O)",
     ]
@@ -906,6 +1183,10 @@ def explore(ctx):
     if done_minor < full_minor:
         ctx.exhaustive = False      # engine convention: a deviation lattice walked to a bound below its full product
     ctx.run(MOD, "run_case", sh, part="shipped-files")
+    hi = history_cases(ctx.quick)
+    for what in ("static", "phonon"):
+        sub = [c for c in hi if c["what"] == what]
+        ctx.run(MOD, "run_case", sub, part=f"history-{what}", states=len(sub), transitions=sum(len(c["ops"]) for c in sub))
 
     ctx.notes["alphabets"] = {
         "phonon": {"shapes": len(SHAPES), "families": len(FAMILIES), "nm_na": len(NMNA), "comments": len(COMMENTS),
@@ -917,6 +1198,11 @@ def explore(ctx):
                                           "configs_in_bound": done_minor, "full_product": full_minor},
                  "cases": len(fi), "histories_depth_le_2": n_hist, "chain_ops": {s: chain_ops(s) for s in SYSTEM_NAMES}},
         "shipped": [c["path"] for c in sh],
+        "history": {"static_ops": HIST_STATIC_OPS, "phonon_ops": HIST_PHONON_OPS, "path_modes": PATHMODES,
+                    "depth": HIST_DEPTH["quick" if ctx.quick else "thorough"],
+                    "sequences_static": len({tuple(c["ops"]) for c in hi if c["what"] == "static"}),
+                    "sequences_phonon": len({tuple(c["ops"]) for c in hi if c["what"] == "phonon"}),
+                    "cases": len(hi), "reads_checked": sum(sum(1 for o in c["ops"] if o in ("rp", "rq")) for c in hi)},
     }
     ctx.notes["fill_outcomes"] = {k: v for k, v in ctx.outcomes.items() if k.startswith("fill")}
     ctx.notes["not_asserted"] = [
